@@ -195,6 +195,8 @@ type OpSpec struct {
 	ClientOnly      bool              `json:"clientOnly,omitempty"`
 	SkipCRDs        bool              `json:"skipCRDs,omitempty"`
 	IncludeCRDs     bool              `json:"includeCRDs,omitempty"`
+	CLI             []string          `json:"cli,omitempty"`     // Op "cli": arguments of a helm command line; @CHART@ = chart directory, @VALUES@ = values file
+	CLIKind         string            `json:"cliKind,omitempty"` // template | install | upgrade | uninstall | rollback (for signatures)
 	SkipSchema      bool              `json:"skipSchema,omitempty"`
 	NoOpenAPI       bool              `json:"noOpenAPI,omitempty"` // --disable-openapi-validation
 	Labels          map[string]string `json:"labels,omitempty"`
